@@ -21,8 +21,6 @@ def main():
     ctx = Ctx(pid, a.tier, seed)
     try:
         mod.run(ctx)
-    except SystemExit:
-        raise
     except BaseException:
         traceback.print_exc()
         print("ERROR property=%s infrastructure failure in the check itself" % pid, flush=True)
